@@ -139,7 +139,7 @@ def configs(tier):
                 continue
             add(f"core/tknorm/{shp}/r{rk}/{how}", fam="tknorm", shape=shp, ranks=rk, how=how, mode="fork")
     # ---- parafac2_normalise
-    p2 = [((2,), 1, 2), ((2, 3), 1, 1), ((2, 2), 2, 1), ((2,), 2, 2)] + ([] if q else [((2, 3), 2, 2), ((3, 2, 2), 2, 2), ((3, 3), 2, 1)])
+    p2 = [((2,), 1, 2), ((2, 3), 1, 1), ((2, 2), 2, 1), ((2,), 2, 2)] + ([] if q else [((2, 3), 1, 2), ((2, 2, 2), 2, 2), ((3, 3), 1, 2)])  # 3-row projections with R = 2 (3x2 frames under P^T P = I) make every query slow
     for Js, R, K in p2:
         for w in (0, 1):
             for how in ("tuple", "wrapper"):
@@ -356,7 +356,35 @@ def attempt(E, name, fn):
 
 
 # ----------------------------------------------------------------------------- harness
+def _eager_atom_lemmas():
+    """the engine keeps the consequences of v = sqrt(sum p_i^2) (v == 0 <=> all p_i == 0, v >= |p_i|) as on-demand refinement
+    lemmas; the code verified here branches on `norm == 0` right after taking the root (`where(scales == 0, 1, scales)`, the zero-norm
+    test of congruence_coefficient), so they are asserted as soon as the atom is created (sound: consequences of the definition).
+    Same helper as in props/c19.py / props/c20.py."""
+    from vt import sym
+
+    c = sym.CTX
+    if not hasattr(c, "atom_lemmas") or getattr(c, "_c04_eager", False):
+        return
+    c._c04_eager = True
+    orig = c.root
+
+    def root(*a, **k):
+        r = orig(*a, **k)
+        done = getattr(c, "_c04_flushed", None)
+        if done is None or done[0] is not c.atom_lemmas:
+            done = c._c04_flushed = [c.atom_lemmas, 0]  # reset_path installs a new list per path
+        for f in c.atom_lemmas[done[1] :]:
+            c.add_fact("def", f)
+        done[1] = len(c.atom_lemmas)
+        return r
+
+    c.root = root
+
+
 def harness(E, cfg):
+    if E.symbolic:
+        _eager_atom_lemmas()
     tenalg.set_backend(cfg["be"])
     try:
         globals()["h_" + cfg["fam"]](E, cfg)
